@@ -386,6 +386,12 @@ func GetWafVariables(ctx *context.Context, name string) (value.Value, error) {
 			return v, nil
 		}
 		return ctx.WafRFIScore, nil
+	// waf.sql_injection_score is readonly in LOG scope, WAF is not simulated so returns zero
+	case WAF_SQL_INJECTION_SCORE:
+		if v := lookupOverride(ctx, name); v != nil {
+			return v, nil
+		}
+		return &value.Float{Value: 0}, nil
 	case WAF_RULE_ID:
 		if v := lookupOverride(ctx, name); v != nil {
 			return v, nil
